@@ -78,6 +78,12 @@ Attach(s, k) ==
   /\ cons' = [cons EXCEPT ![s] = @ \cup {k}]
   /\ UNCHANGED <<reg, status, retiring>>
   /\ Rec("attach", s, k, FALSE)
+(* C03: "including one that is attaching at that very moment": a consumer that attaches to a stream that
+   has already ended is released at once (it never counts as attached)                           *)
+AttachDead(s, k) ==
+  /\ status[s] = "closed"
+  /\ UNCHANGED <<reg, status, cons, retiring>>
+  /\ Rec("attach", s, k, TRUE)
 Detach(s, k) ==
   /\ k \in cons[s]
   /\ cons' = [cons EXCEPT ![s] = @ \ {k}]
@@ -102,7 +108,7 @@ Init == /\ reg = [p \in Paths |-> None] /\ status = [s \in Streams |-> "new"]
         /\ cons = [s \in Streams |-> {}] /\ retiring = [s \in Streams |-> FALSE] /\ hist = <<>>
 Next == /\ Len(hist) < MaxHist
         /\ \E s \in Streams : \/ Regist(s) \/ Unregist(s) \/ Close(s)
-                              \/ \E k \in Kinds : Attach(s, k) \/ Detach(s, k)
+                              \/ \E k \in Kinds : Attach(s, k) \/ Detach(s, k) \/ AttachDead(s, k)
                               \/ \E b \in BOOLEAN : IdleTick(s, b)
 
 Emit == (Len(hist) >= EmitAt) => PrintT(<<"@H", ToJson([hist |-> hist])>>)
